@@ -265,6 +265,13 @@ def check_C10(chk):
     out = chk.run_harness(bins["dbg-native"], ["replay", "--kind", "iter", "--cases", hist, "--contents", spread], st)
     if out:
         chk.add_replay(out, st, behaviours=out.get("evaluations", 0))
+    blocks, res4 = vlib.generate_cases(chk.work, "GenBV_rlblocks", "GenBV",
+                                       cfg_consts({"N": 0, "Mode": '"rlblocks"', "FamilyLens": "{}", "RLClasses": "{}", "RLMaxRuns": 0, "RLTails": "{}", "SpreadPos": "{}", "SpreadK": 0}) + GEN_TAIL)
+    chk.add_tlc(res4, "GenBV contents whose run-length encoding spans 2-3 blocks with padding", {"behaviours": len(res4.replay_lines)})
+    st = "replay iterator transition cover on multi-block run-length contents (iterators positioned near block ends)"
+    out = chk.run_harness(bins["dbg-native"], ["replay", "--kind", "iter", "--cases", hist, "--contents", blocks], st)
+    if out:
+        chk.add_replay(out, st, behaviours=out.get("evaluations", 0))
     chk.cov["exhaustive"] = True
     stage_trace(chk, bins, "iter", "TraceIter", invariants=("Window",), seeds=2 if chk.thorough else 1)
     return chk.finish(rule="cases = (structure content, iterator kind, start point, call history); histories are the transition cover of the "
